@@ -253,6 +253,43 @@ class Model:
 FLAG_GEP = None
 
 
+def _see_through(f, val, depth=0):
+    """Definition text of the value `val` in function `f`, looking through int locals that are assigned exactly once and whose
+    address is used for nothing but that store and loads (`uint32_t x = <v>; … x …` - a harmless copy).  A parameter is
+    returned as '<param N>'."""
+    m = re.match(r'^%(\d+)$', val)
+    if m and int(m.group(1)) < f.params:
+        return "<param %s>" % m.group(1)
+    insts = [i for b in f.blocks for i in b.insts]
+    d = ""
+    for i in insts:
+        if i.text.startswith(val + " = "):
+            d = i.text
+            break
+    m = re.match(r'%[\w.]+ = load i32, i32\* (%[\w.]+),', d)
+    if not m or depth > 3:
+        return d
+    slot = m.group(1)
+    if not any(re.match(re.escape(slot) + r' = alloca i32\b', i.text) for i in insts):
+        return d
+    pat = re.compile(r'(?<![\w.])' + re.escape(slot) + r'(?![\w.])')
+    stores = []
+    for b in f.blocks:
+        if b.term_text and pat.search(b.term_text):
+            return d
+        for i in b.insts:
+            t = i.text
+            if not pat.search(t) or re.match(re.escape(slot) + r' = alloca i32\b', t) or re.match(r'%[\w.]+ = load i32, i32\* ' + re.escape(slot) + r',', t):
+                continue
+            ms = re.match(r'store i32 (\S+), i32\* ' + re.escape(slot) + r',', t)
+            if not ms:
+                return d
+            stores.append(ms.group(1))
+    if len(stores) != 1:
+        return d
+    return _see_through(f, stores[0], depth + 1)
+
+
 def _flag_field(mod):
     """GEP expression of janet_vm.sandbox_flags, taken from janet_sandbox_assert, whose shape is verified here:
        load arg; load flags; and; icmp ne 0; br -> {call janet_panic; unreachable} / {ret}."""
@@ -266,11 +303,16 @@ def _flag_field(mod):
         raise ExtractError("janet_sandbox_assert: flags load not found")
     gep = m.group(2)
     m2 = re.search(r'(%\d+) = and i32 (%\d+), (%\d+)\n(%\d+) = icmp ne i32 \1, 0$', txt)
-    if not m2 or m.group(1) not in (m2.group(2), m2.group(3)):
+    if not m2:
         raise ExtractError("janet_sandbox_assert: test is not `(arg & flags) != 0`")
-    other = m2.group(2) if m2.group(3) == m.group(1) else m2.group(3)
-    if not re.search(re.escape(other) + r' = load i32, i32\* %2', txt) or "store i32 %0, i32* %2" not in txt:
+    ops = [_see_through(f, m2.group(2)), _see_through(f, m2.group(3))]          # (copies through single-assignment locals are fine)
+    isflag = [bool(re.match(r'%\d+ = load i32, i32\* ' + re.escape(gep) + r',', o)) for o in ops]
+    if isflag.count(True) != 1:
+        raise ExtractError("janet_sandbox_assert: test is not `(arg & flags) != 0`")
+    if ops[1 - isflag.index(True)] != "<param 0>":
         raise ExtractError("janet_sandbox_assert: tested value is not the argument")
+    if len(re.findall(r' = and i32 ', txt)) != 1 or not re.search(r'br i1 ' + re.escape(m2.group(4)) + r',', b0.term_text):
+        raise ExtractError("janet_sandbox_assert: branch is not on `(arg & flags) != 0`")
     if b0.term != "br" or b0.succs != [b1.label, b2.label]:
         raise ExtractError("janet_sandbox_assert: branch shape")
     calls1 = [i.callee for i in b1.insts if i.kind == "call"]
@@ -312,11 +354,12 @@ def flag_writes(mod, gep):
                         defs = {x.text.split(" = ")[0]: x.text for x in b.insts[:k] if " = " in x.text}
                         d = defs.get(val, "")
                         mo = re.match(r'%\d+ = or i32 (%\d+), (%\d+)', d)
-                        ml = re.match(r'%\d+ = load i32, i32\* (%\d+),', d)
+                        ml = re.match(r'%\d+ = load i32, i32\* (%\d+),', _see_through(f, val))
+                        fdefs_all = {x.text.split(" = ")[0]: x.text for bb in f.blocks for x in bb.insts if " = " in x.text}
                         if mo and any(gep in defs.get(o, "") and " load i32" in defs.get(o, "") for o in mo.groups()):
                             kind = "or"
                         elif ml:
-                            g = defs.get(ml.group(1), "")
+                            g = fdefs_all.get(ml.group(1), "")
                             mg = re.match(r'%\d+ = getelementptr inbounds %struct\.JanetEVGenericMessage, %struct\.JanetEVGenericMessage\* %(\d+), i32 0, i32 1$', g)
                             before = b.insts[:k]
                             inits = [j for j, x in enumerate(before) if x.kind == "call" and x.callee == "janet_init"]
@@ -362,10 +405,10 @@ def thread_start_shape(mod, gep, handovers, spawners):
                         stores = [x for x in before if x.kind == "store" and any(re.match(r'store i32 \S+, i32\* ' + re.escape(sl) + r',', x.text) for sl in slots)]
                         if stores:
                             v = re.match(r'store i32 (\S+),', stores[-1].text).group(1)
-                            if ldflag.match(defs.get(v, "")):
+                            if ldflag.match(_see_through(f, v)):
                                 fact = "janet_ev_threaded_call: msg.argi := flags"
                     elif i.callee == "janet_ev_threaded_await" and len(i.args) >= 3:
-                        if ldflag.match(defs.get(i.args[2][1], "")):
+                        if ldflag.match(_see_through(f, i.args[2][1])):
                             fact = "janet_ev_threaded_await: argi := flags"
                     out.append((name, fact))
     # janet_ev_threaded_await(fp, tag, argi, argp) forwards its argi parameter as msg.argi and its fp to janet_ev_threaded_call
